@@ -89,6 +89,13 @@ def fresh(i):
     cp = _cp()
     sh = cp.css.CSSStyleSheet(href='http://h/s.css')
     sh._setFetcher(lambda url: (None, 'i { top: 1px } @media print { j { left: 0 } }'))
+    if i >= len(SHEETS):
+        # a sheet from the grammar G (seed i): nesting, @page with margin boxes (also empty and repeated ones), at-rules
+        # inside blocks, namespaces, every value shape
+        from .. import sheetgen as G
+        rnd = random.Random(i)
+        sh.cssText = G.render_sheet(G.gen_sheet(rnd), G.Layout(rnd, comments=False), G.Plain())
+        return sh
     text = SHEETS[i]
     # @import has to come first
     parts = [p for p in split_rules(text)]
@@ -147,7 +154,10 @@ def style_rules(sheet):
 
 
 NEW_RULES = ['k { top: 3px }', '@media tv { l { top: 4px } }', '@page { margin: 2px }', '/*n*/', '@bar x;',
-             '@media print { @media screen { m { left: 5px } } }']
+             '@media print { @media screen { m { left: 5px } } }',
+             '@page :left { margin: 1px; @top-left { color: red; color: blue } @bottom-left { left: 0 } @top-left { top: 0; width: 1px } }',
+             '@media tv { @page { @top-center { content: "a" } @top-center { content: "b" } } }']
+PAGE_TEXTS = ['@page { margin: 3px; @top-left { left: 1px } @top-left { top: 2px } }', '@page :first { @bottom-center { color: red } }']
 
 
 def apply_op(sheet, op, detached):
@@ -216,6 +226,10 @@ def apply_op(sheet, op, detached):
             ms = [c for c in cs[1:] if c.type == c.MEDIA_RULE]
             if ms:
                 ms[op[1] % len(ms)].media.appendMedium('handheld')
+        elif kind == 'page_csstext':
+            ps = [c for c in cs[1:] if c.type == c.PAGE_RULE]
+            if ps:
+                ps[op[1] % len(ps)].cssText = PAGE_TEXTS[op[2] % len(PAGE_TEXTS)]
         elif kind == 'media_csstext':
             ms = [c for c in cs[1:] if c.type == c.MEDIA_RULE]
             if ms:
@@ -226,7 +240,7 @@ def apply_op(sheet, op, detached):
 
 OPS = ['insert_text', 'insert_obj', 'add', 'delete', 'move', 'style_text', 'style_obj', 'style_csstext', 'selector_text',
        'selectorlist_obj', 'append_selector', 'set_property', 'set_property_obj', 'rule_csstext', 'media_text', 'media_obj',
-       'append_medium', 'media_csstext']
+       'append_medium', 'media_csstext', 'page_csstext']
 
 
 def run_history(case):
@@ -266,6 +280,13 @@ def gen_cases(tier, seed):
         ops = tuple((rnd.choice(OPS), rnd.randrange(8), rnd.randrange(8), rnd.randrange(4))
                     for _ in range(rnd.randint(2, 10 if tier == 'quick' else 25)))
         cases.append((rnd.randrange(len(SHEETS)), ops))
+    # sheets from the grammar G: the links right after parsing, then short random histories
+    for j in range(150 if tier == 'quick' else 3000):
+        g = len(SHEETS) + seed * 100003 + j
+        cases.append((g, ()))
+        if j % 3 == 0:
+            cases.append((g, tuple((rnd.choice(OPS), rnd.randrange(8), rnd.randrange(8), rnd.randrange(4))
+                                   for _ in range(rnd.randint(1, 6)))))
     return cases
 
 
@@ -391,7 +412,7 @@ def run(tier, seed):
     coverage = {
         'evaluations': sum(len(c[1]) + 1 for c in cases) + sum(len(c[1]) for c in tcases),
         'distinct_nontrivial': len(set(cases)) + len(set(tcases)),
-        'rule': 'graph walk: 2 sheets with every rule kind (@media nested three deep with @page inside, @page with a margin '
+        'rule': 'graph walk: sheets from the grammar G (150 / 3000 per run) and 2 fixed sheets with every rule kind (@media nested three deep with @page inside, @page with a margin '
                 'rule, @font-face, @import with a fetched sheet, unknown rule, comment, namespaced selectors, multi-valued '
                 'properties) x every one of 18 operations at 18 positions alone, then random histories (insertRule text / '
                 'object at any container and index, add, deleteRule, moving a rule object between containers, style / '
